@@ -17,6 +17,11 @@ ASSUMPTIONS = [
     "trees use no user-defined coercers and only idempotent processors; union variants return their input; RecordValidator only with the dict-building target; class defaults are accepted by their own field validators",
     "Coq theorems are partial: proved on the fragment Fixpoint.fp_ok (incl. sets / maps without container predicates, DictValidatorAny and Dataclass / NamedTuple / TypedDict validators with string keys and no whole-object validator); RecordValidator targets and container predicates on the payload are covered by re-validation in the correspondence",
 ]
+from ..facts import effects as _effects  # noqa: E402
+_FX = _effects.obligation("C17")
+EXTRA_PROOF_FILES = [_FX[0]]
+TRUSTED_EXTRA = [_FX[1]]
+regenerate_facts = _FX[2]
 
 IDEM_PROCS = [("Strip",), ("Upper",), ("Lower",), ("ProcUser", N(0))]
 
